@@ -12,6 +12,7 @@
   these theorems.
 -/
 import UpdaterModel.Model.Crash
+import UpdaterModel.Lemmas.Running
 import UpdaterModel.Props.C03
 
 namespace Updater
@@ -742,5 +743,344 @@ theorem secRollBackSaves_apply (ns : List Nat) (hne : ns ≠ []) :
     exact (last_saved ns _ hne).symm
 
 end
+
+end Updater
+
+namespace Updater
+
+/-! ### the patch whose launch is in progress is never selected after a process death -/
+
+/-- Generic version of `crashPairs_pjok`: a predicate on the patches file that holds for an
+    unreadable file, for the start and for every saved value holds for every crash pair. -/
+theorem crashPairs_pred (P : JFile PatchesState → Prop) (hg : P .garbage) (cur : StateFiles) (evs : List SaveEv)
+    (hc : P cur.2) (hev : ∀ e ∈ evs, match e with | .pj v => P (.ok v) | .sj _ => True) :
+    ∀ q ∈ crashPairs cur evs, P q.2 := by
+  have key : ∀ (pre : List SaveEv) (c0 : StateFiles), P c0.2 →
+      (∀ e ∈ pre, match e with | .pj v => P (.ok v) | .sj _ => True) → P (applySaves c0 pre).2 := by
+    intro pre
+    induction pre with
+    | nil => intro c0 h0 _; exact h0
+    | cons e es ih =>
+      intro c0 h0 h
+      simp only [applySaves, List.foldl]
+      apply ih (e.apply c0) _ (fun x hx => h x (List.mem_cons_of_mem _ hx))
+      have he := h e List.mem_cons_self
+      cases e with
+      | pj v => exact he
+      | sj s => exact h0
+  apply crashPairs_all (fun q => P q.2) evs cur hc
+  intro pre e post heq
+  have hpre := key pre cur hc (fun x hx => hev x (by rw [heq]; exact List.mem_append_left _ hx))
+  have he := hev e (by rw [heq]; exact List.mem_append_right _ List.mem_cons_self)
+  cases e with
+  | pj v => exact ⟨hg, he⟩
+  | sj s => exact ⟨hpre, hpre⟩
+
+/-- The booting marker `bm` is still there, or no record numbered like it is left. -/
+def Marked (bm : Meta) (pj : JFile PatchesState) : Prop :=
+  (pj.getD {}).booting = some bm ∨ ∀ m, InSlot (pj.getD {}) m → m.number ≠ bm.number
+
+theorem Marked_garbage (bm : Meta) : Marked bm .garbage := Or.inr (by intro m h; simp [JFile.getD, InSlot] at h)
+
+theorem Marked_keep (bm : Meta) (ps v : PatchesState) (hb : v.booting = ps.booting) (hs : SlotsSub v ps)
+    (h : Marked bm (.ok ps)) : Marked bm (.ok v) := by
+  rcases h with h | h
+  · left; simp only [JFile.getD] at h ⊢; rw [hb]; exact h
+  · right; intro m hm; exact h m (hs m hm)
+
+theorem foldFallBackSaves_marked (env : Env) (key : Option String) (bm : Meta) (ns : List Nat) (pm : PM) (h : Marked bm (.ok pm.ps)) :
+    ∀ e ∈ foldFallBackSaves env key ns pm, match e with | .pj v => Marked bm (.ok v) | .sj _ => True := by
+  induction ns generalizing pm with
+  | nil => intro e he; simp [foldFallBackSaves] at he
+  | cons n ns ih =>
+    intro e he
+    simp only [foldFallBackSaves, List.mem_cons] at he
+    have h1 := Marked_keep bm pm.ps _ (tryFallBack_boot env key pm n) (tryFallBack_slots env key pm n) h
+    rcases he with rfl | he
+    · exact h1
+    · exact ih _ h1 e he
+
+section
+variable (env : Env) (cfg : Config) (bm : Meta) (d : Disk) (hst : Settled d cfg.version) (hd : Marked bm (files d).2)
+include hst hd
+
+theorem files_marked_ok : Marked bm (.ok (loadPatchesState d)) := by
+  rcases hd with h | h
+  · exact Or.inl h
+  · exact Or.inr h
+
+theorem mk_nextBootPatch : ∀ q ∈ crashPairs (files d) (secNextBootPatchSaves env cfg d), Marked bm q.2 := by
+  obtain ⟨s, hs, hv⟩ := hst
+  apply crashPairs_pred _ (Marked_garbage bm) _ _ hd
+  intro e he
+  simp only [secNextBootPatchSaves, loadSaves_settled d _ ⟨s, hs, hv⟩, loadOrNew_settled d _ s hs hv, List.nil_append,
+    PM.nextBootPatchSaves] at he
+  cases hnx : (PM.new d).ps.next with
+  | none => simp [hnx] at he
+  | some nx =>
+    simp only [hnx] at he
+    split at he
+    · cases he
+    · simp only [List.mem_singleton] at he; subst he
+      exact Marked_keep bm _ _ (tryFallBack_boot env cfg.key (PM.new d) nx.number) (tryFallBack_slots env cfg.key (PM.new d) nx.number)
+        (files_marked_ok cfg bm d ⟨s, hs, hv⟩ hd)
+
+theorem mk_load : ∀ q ∈ crashPairs (files d) (loadSaves d cfg.version), Marked bm q.2 := by
+  apply crashPairs_pred _ (Marked_garbage bm) _ _ hd
+  intro e he; simp [loadSaves_settled d _ hst] at he
+
+theorem mk_clearEvents : ∀ q ∈ crashPairs (files d) (secClearEventsSaves cfg d), Marked bm q.2 := by
+  apply crashPairs_pred _ (Marked_garbage bm) _ _ hd
+  intro e he
+  simp only [secClearEventsSaves, loadSaves_settled d _ hst, List.nil_append, List.mem_singleton] at he
+  subst he; trivial
+
+theorem mk_rollBack (ns : List Nat) : ∀ q ∈ crashPairs (files d) (secRollBackSaves env cfg d ns), Marked bm q.2 := by
+  obtain ⟨s, hs, hv⟩ := hst
+  apply crashPairs_pred _ (Marked_garbage bm) _ _ hd
+  intro e he
+  simp only [secRollBackSaves, loadSaves_settled d _ ⟨s, hs, hv⟩, loadOrNew_settled d _ s hs hv, List.nil_append] at he
+  exact foldFallBackSaves_marked env cfg.key bm ns (PM.new d) (files_marked_ok cfg bm d ⟨s, hs, hv⟩ hd) e he
+
+theorem mk_install (o : Offer) (out : Bytes) (ho : o.number ≠ bm.number ∨ (loadPatchesState d).booting = some bm) :
+    ∀ q ∈ crashPairs (files d) (secInstallSaves cfg d o out), Marked bm q.2 := by
+  obtain ⟨s, hs, hv⟩ := hst
+  apply crashPairs_pred _ (Marked_garbage bm) _ _ hd
+  intro e he
+  simp only [secInstallSaves, loadSaves_settled d _ ⟨s, hs, hv⟩, loadOrNew_settled d _ s hs hv, List.nil_append,
+    List.mem_singleton] at he
+  subst he
+  have h0 := files_marked_ok cfg bm d ⟨s, hs, hv⟩ hd
+  simp only [Marked, JFile.getD, addPatch_ps] at h0 ⊢
+  rcases ho with ho | ho
+  · rcases h0 with h | h
+    · exact Or.inl h
+    · right
+      intro m hm
+      simp only [InSlot] at hm
+      rcases hm with h' | h' | h'
+      · have : m = { number := o.number, size := out.length, hash := o.hash, sig := o.sig } := by simpa using h'.symm
+        rw [this]; exact ho
+      · exact h m (Or.inr (Or.inl h'))
+      · exact h m (Or.inr (Or.inr h'))
+  · exact Or.inl ho
+
+theorem mk_failure (msg : Nat → String) (hb : (loadPatchesState d).booting = some bm) :
+    ∀ q ∈ crashPairs (files d) (loadSaves d cfg.version ++ failureSaves env cfg (loadOrNew d cfg.version) msg), Marked bm q.2 := by
+  obtain ⟨s, hs, hv⟩ := hst
+  apply crashPairs_pred _ (Marked_garbage bm) _ _ hd
+  intro e he
+  have hb' : (PM.new d).ps.booting = some bm := hb
+  simp only [loadSaves_settled d _ ⟨s, hs, hv⟩, loadOrNew_settled d _ s hs hv, List.nil_append, failureSaves, hb',
+    List.mem_cons, List.mem_nil_iff, or_false] at he
+  rcases he with rfl | rfl
+  · -- the failure is recorded: the patch is banned and in no slot
+    right
+    have hban := recordBootFailure_ban env cfg.key (PM.new d) bm.number [] (BanPS_nil _)
+    obtain ⟨_, hn, hl, hbo⟩ := hban
+    intro m hm
+    simp only [JFile.getD] at hm
+    intro hmn
+    rcases hm with h' | h' | h'
+    · exact hn m h' (by rw [hmn]; exact List.mem_cons_self)
+    · exact hl m h' (by rw [hmn]; exact List.mem_cons_self)
+    · exact hbo m h' (by rw [hmn]; exact List.mem_cons_self)
+  · trivial
+
+end
+
+theorem rollBackIfNeeded_booting (env : Env) (cfg : Config) (d : Disk) (rb : Option (List Nat)) (hst : Settled d cfg.version) :
+    (loadPatchesState (rollBackIfNeeded env cfg d rb)).booting = (loadPatchesState d).booting := by
+  cases rb with
+  | none => rfl
+  | some ns =>
+    obtain ⟨s, hs, hv⟩ := hst
+    simp only [rollBackIfNeeded, secRollBack, loadOrNew_settled d _ s hs hv]
+    rw [(foldFallBack_ban env cfg.key ns (PM.new d) [] (PM.new_coherent _) (BanPS_nil _)).1, foldFallBack_boot]; rfl
+
+theorem secNextBootPatch_booting (env : Env) (cfg : Config) (d : Disk) (hst : Settled d cfg.version) :
+    (loadPatchesState (secNextBootPatch env cfg d).1).booting = (loadPatchesState d).booting := by
+  obtain ⟨s, hs, hv⟩ := hst
+  simp only [secNextBootPatch, loadOrNew_settled d _ s hs hv]
+  rw [nextBootPatch_coherent _ _ _ (PM.new_coherent d), nextBootPatch_boot]; rfl
+
+theorem shouldInstall_booting (env : Env) (cfg : Config) (d : Disk) (n : Nat) (hst : Settled d cfg.version) :
+    (loadPatchesState (shouldInstall env cfg d n).1).booting = (loadPatchesState d).booting := by
+  unfold shouldInstall
+  rw [secIsKnownBad_eq cfg d n hst]
+  simp only
+  split
+  · rfl
+  · split <;> exact secNextBootPatch_booting env cfg d hst
+
+theorem secClearEvents_booting (cfg : Config) (d : Disk) (hst : Settled d cfg.version) :
+    (loadPatchesState (secClearEvents cfg d)).booting = (loadPatchesState d).booting := by
+  unfold loadPatchesState; rw [secClearEvents_pj cfg d hst]
+
+/-- The sections of `should_install_patch` keep the marker. -/
+theorem mk_shouldInstall (env : Env) (cfg : Config) (bm : Meta) (d : Disk) (hst : Settled d cfg.version)
+    (hb : (loadPatchesState d).booting = some bm) (n : Nat) :
+    ∀ q ∈ segCrashPairs (shouldInstallSegs env cfg d n), Marked bm q.2 := by
+  intro q hq
+  rw [mem_segCrashPairs] at hq
+  obtain ⟨sg, hsg, hq⟩ := hq
+  simp only [shouldInstallSegs, secIsKnownBad_eq cfg d n hst, List.mem_cons] at hsg
+  rcases hsg with rfl | hsg
+  · exact mk_load cfg bm _ hst (Or.inl hb) q hq
+  · split at hsg
+    · cases hsg
+    · simp only [List.mem_singleton] at hsg; subst hsg
+      exact mk_nextBootPatch env cfg bm _ hst (Or.inl hb) q hq
+
+theorem mk_rollBackIfNeeded (env : Env) (cfg : Config) (bm : Meta) (d : Disk) (hst : Settled d cfg.version)
+    (hb : (loadPatchesState d).booting = some bm) (rb : Option (List Nat)) :
+    ∀ q ∈ segCrashPairs (rollBackIfNeededSegs env cfg d rb), Marked bm q.2 := by
+  intro q hq
+  cases rb with
+  | none => simp [rollBackIfNeededSegs, segCrashPairs] at hq
+  | some ns =>
+    simp only [rollBackIfNeededSegs, segCrashPairs, List.flatMap_cons, List.flatMap_nil, List.append_nil] at hq
+    exact mk_rollBack env cfg bm _ hst (Or.inl hb) ns q hq
+
+/-- Every section of an update keeps the marker of the patch that is booting. -/
+theorem mk_updateCore (env : Env) (cfg : Config) (bm : Meta) (d : Disk) (hst : Settled d cfg.version)
+    (hb : (loadPatchesState d).booting = some bm) (base : Option Bytes) (sc : UpdateScript) :
+    ∀ q ∈ segCrashPairs (updateCoreSegs env cfg base d sc), Marked bm q.2 := by
+  intro q hq
+  have e1 := secCopyEvents_disk cfg d hst
+  simp only [updateCoreSegs, e1, segCrashPairs, List.flatMap_cons, List.mem_append] at hq
+  rcases hq with hq | hq | hq
+  · exact mk_load cfg bm _ hst (Or.inl hb) q hq
+  · exact mk_clearEvents cfg bm _ hst (Or.inl hb) q hq
+  · cases hr : sc.resp with
+    | none => simp [hr] at hq
+    | some r =>
+      simp only [hr] at hq
+      have h1 := secClearEvents_settled cfg d hst
+      have hb1 : (loadPatchesState (secClearEvents cfg d)).booting = some bm := by rw [secClearEvents_booting cfg d hst]; exact hb
+      have hq' : q ∈ segCrashPairs (afterCheckSegs env cfg base (secClearEvents cfg d) r sc.dl) := hq
+      simp only [afterCheckSegs, segCrashPairs, List.flatMap_append, List.mem_append] at hq'
+      have h2 := rollBackIfNeeded_settled env cfg _ r.rolledBack h1
+      have hb2 : (loadPatchesState (rollBackIfNeeded env cfg (secClearEvents cfg d) r.rolledBack)).booting = some bm := by
+        rw [rollBackIfNeeded_booting env cfg _ r.rolledBack h1]; exact hb1
+      rcases hq' with hq' | hq'
+      · exact mk_rollBackIfNeeded env cfg bm _ h1 hb1 r.rolledBack q hq'
+      · split at hq'
+        · simp at hq'
+        · cases hp : r.patch with
+          | none => simp [hp] at hq'
+          | some o =>
+            simp only [hp, List.flatMap_append, List.mem_append] at hq'
+            rcases hq' with hq' | hq'
+            · exact mk_shouldInstall env cfg bm _ h2 hb2 o.number q hq'
+            · have h3 := shouldInstall_settled env cfg _ o.number h2
+              have hb3 : (loadPatchesState (shouldInstall env cfg (rollBackIfNeeded env cfg (secClearEvents cfg d) r.rolledBack) o.number).1).booting = some bm := by
+                rw [shouldInstall_booting env cfg _ o.number h2]; exact hb2
+              cases hs : (shouldInstall env cfg (rollBackIfNeeded env cfg (secClearEvents cfg d) r.rolledBack) o.number).2 with
+              | knownBad => simp [hs] at hq'
+              | alreadyInstalled => simp [hs] at hq'
+              | ok =>
+                simp only [hs] at hq'
+                have hq2 : q ∈ segCrashPairs (installStageSegs env cfg base _ o sc.dl) := hq'
+                rw [mem_segCrashPairs] at hq2
+                obtain ⟨sg, hsg, hq2⟩ := hq2
+                unfold installStageSegs at hsg
+                cases hdl : sc.dl with
+                | none => simp [hdl] at hsg
+                | some stream =>
+                  cases hbs : base with
+                  | none => simp [hdl, hbs] at hsg
+                  | some bs =>
+                    simp only [hdl, hbs] at hsg
+                    cases hdec : bipatchDecode stream bs with
+                    | error e => simp [hdec] at hsg
+                    | ok out =>
+                      simp only [hdec] at hsg
+                      split at hsg
+                      · simp at hsg
+                      · split at hsg
+                        · simp at hsg
+                        · simp only [List.mem_singleton] at hsg; subst hsg
+                          exact mk_install cfg bm _ h3 (Or.inl hb3) o out (Or.inr hb3) q hq2
+
+/-- **C04, "whose own launch was not in progress".** Let a call other than a launch start or a
+    success report find patch `bm` marked as booting (its launch is in progress), in a readable state
+    of this release. If the process dies anywhere in that call — any crash state `q`, any contents of
+    `patches/` — the next launch does not select `bm`'s number: either the marker is still there and
+    crash detection bans it, or the call was the failure report and had already banned it. -/
+theorem crash_in_progress (env : Env) (cfg : Config) (w : World) (op : Op) (bm : Meta)
+    (hst : Settled w.disk cfg.version) (hb : (loadPatchesState w.disk).booting = some bm)
+    (hop : match op with | .failure | .nextN | .nextP | .curN => True | .check _ _ => True | .update _ _ => True | _ => False)
+    (q : StateFiles) (hq : q ∈ segCrashPairs (opSegs env cfg w op))
+    (pd : Option PatchesDir) (cfg' : Config) (n : Nat)
+    (h : (recover env cfg' { stateJson := q.1, patchesJson := q.2, patches := pd }).2 = some n) :
+    n ≠ bm.number := by
+  have hd0 : Marked bm (files w.disk).2 := Or.inl hb
+  have hmark : Marked bm q.2 := by
+    cases op with
+    | failure =>
+      simp only [opSegs, segCrashPairs, List.flatMap_cons, List.flatMap_nil, List.append_nil, secLaunchFailureSaves] at hq
+      exact mk_failure env cfg bm _ hst hd0 _ hb q hq
+    | nextN =>
+      simp only [opSegs, segCrashPairs, List.flatMap_cons, List.flatMap_nil, List.append_nil] at hq
+      exact mk_nextBootPatch env cfg bm _ hst hd0 q hq
+    | nextP =>
+      simp only [opSegs, segCrashPairs, List.flatMap_cons, List.flatMap_nil, List.append_nil] at hq
+      exact mk_nextBootPatch env cfg bm _ hst hd0 q hq
+    | curN =>
+      simp only [opSegs, segCrashPairs, List.flatMap_cons, List.flatMap_nil, List.append_nil] at hq
+      exact mk_load cfg bm _ hst hd0 q hq
+    | check chan resp =>
+      -- rollbacks, then the install decision: every section keeps the marker
+      cases resp with
+      | none => simp [opSegs, checkCoreSegs, segCrashPairs] at hq
+      | some r =>
+        simp only [opSegs, checkCoreSegs, segCrashPairs, List.flatMap_append, List.mem_append] at hq
+        have h1 := rollBackIfNeeded_settled env cfg w.disk r.rolledBack hst
+        have hb1 : (loadPatchesState (rollBackIfNeeded env cfg w.disk r.rolledBack)).booting = some bm := by
+          rcases boot_rollBackIfNeeded env cfg w.disk r.rolledBack hst with e | e
+          · rw [e]; exact hb
+          · -- a rollback never clears the marker
+            cases hrb : r.rolledBack with
+            | none => rw [hrb] at e; simp only [rollBackIfNeeded] at e; rw [hb] at e; cases e
+            | some ns =>
+              obtain ⟨s, hs, hv⟩ := hst
+              have : (loadPatchesState (rollBackIfNeeded env cfg w.disk (some ns))).booting = (loadPatchesState w.disk).booting := by
+                simp only [rollBackIfNeeded, secRollBack, loadOrNew_settled w.disk _ s hs hv]
+                rw [(foldFallBack_ban env cfg.key ns (PM.new w.disk) [] (PM.new_coherent _) (BanPS_nil _)).1, foldFallBack_boot]; rfl
+              rw [this]; exact hb
+        rcases hq with hq | hq
+        · cases hrb : r.rolledBack with
+          | none => simp [hrb, rollBackIfNeededSegs] at hq
+          | some ns =>
+            simp only [hrb, rollBackIfNeededSegs, List.flatMap_cons, List.flatMap_nil, List.append_nil] at hq
+            exact mk_rollBack env cfg bm _ hst hd0 ns q hq
+        · cases hp : r.patch with
+          | none => simp [hp] at hq
+          | some o =>
+            simp only [hp] at hq
+            have hq' : q ∈ segCrashPairs (shouldInstallSegs env cfg (rollBackIfNeeded env cfg w.disk r.rolledBack) o.number) := hq
+            rw [mem_segCrashPairs] at hq'
+            obtain ⟨sg, hsg, hq'⟩ := hq'
+            simp only [shouldInstallSegs, secIsKnownBad_eq cfg _ o.number h1, List.mem_cons] at hsg
+            rcases hsg with rfl | hsg
+            · exact mk_load cfg bm _ h1 (Or.inl hb1) q hq'
+            · split at hsg
+              · cases hsg
+              · simp only [List.mem_singleton] at hsg; subst hsg
+                exact mk_nextBootPatch env cfg bm _ h1 (Or.inl hb1) q hq'
+    | start => exact hop.elim
+    | success => exact hop.elim
+    | init p => exact hop.elim
+    | restart => exact hop.elim
+    | auto => exact hop.elim
+    | update chan sc => exact mk_updateCore env cfg bm _ hst hb (w.base cfg) sc q hq
+    | damage dm => exact hop.elim
+  obtain ⟨_, ⟨m, hm, hmn, _⟩, hboot⟩ := recover_facts env cfg' _ n h
+  have hps : loadPatchesState { stateJson := q.1, patchesJson := q.2, patches := pd } = q.2.getD {} := rfl
+  rw [hps] at hm hboot
+  rcases hmark with hk | hk
+  · intro e; apply hboot; rw [hk]; simp [e]
+  · intro e; exact hk m hm (by rw [hmn, e])
 
 end Updater
